@@ -145,3 +145,11 @@ m("C14", ["R35"], EX, "return x * f64::from_bits(1u64 << (y + 1074));", "return 
 m("C14", ["R35"], EX, "return x * f64::from_bits(((y + 1023) as u64) << 52);", "return x * f64::from_bits(((y + 1022) as u64) << 52);", "mul_pow2 normal branch uses the wrong exponent bias")
 m("C07", ["R17"], B, "self.hi.is_finite() && self.lo.is_finite() && no_overlap(self.hi, self.lo)", "self.hi.abs() <= f64::INFINITY && self.lo.is_finite() && no_overlap(self.hi, self.lo)", "is_finite re-spelled as |x| <= inf (true for infinities; |x| < inf is the accepted spelling)")
 m("C06", ["R12d"], SG, "self.hi.is_sign_positive()", "self.hi >= 0.0", "sign bit re-spelled as a comparison with zero (differs for -0.0)")
+# round 12: integers as mathematical values, namesake forwarding, loops havoc'd in the configuration diff
+m("C14", ["R35"], EX, "    let (a, b) = (m >> 5, m & 31);", "    let (a, b) = (m >> 5, m & 15);", "table index re-spelled with a shift and a mask: wrong mask", on="D1-3")
+m("C14", ["R35"], EX, "    let (a, b) = (m >> 5, m & 31);", "    let (a, b) = (m >> 4, m & 31);", "table index re-spelled with a shift and a mask: wrong shift", on="D1-3")
+m("C14", ["R35"], EX, "let expm1_x0 = expm1_128th(libm::trunc(n) as isize);", "let expm1_x0 = expm1_128th(libm::trunc(n) as u8 as isize);", "index computed through a cast that loses negative values (the accepted re-typing i32 -> isize loses none)", on="D1-3")
+m("C14", ["R35"], EX, "let (a, b) = ((n / 32) as usize, (n % 32) as usize);", "let (a, b) = ((n / 32) as usize, (n % 16) as usize);", "wrong modulus in the exp_half table index")
+m("C10", ["R16", "R16x"], NI, "        FloatCore::is_infinite(self)", "        !FloatCore::is_finite(self)", "Float::is_infinite forwarded to the wrong namesake expression (true for NaN)", on="F2-6")
+m("C20", ["RD"], FM, "debug_assert!(abs_lo.is_sign_positive());", "debug_assert!(lo.is_sign_positive());", "hardening assertion on the wrong variable (fails for every negative low word)", on="F2-1")
+m("C11", ["R25"], B, "                    n_pos >>= 1;", "                    n_pos >>= if cfg!(feature = \"std\") { 1 } else { 2 };", "powi loop body depends on the configuration (bodies with loops are compared with the loops havoc'd)")
